@@ -321,10 +321,11 @@ theorem from_single_intervals_exact (k : PChain) (rest : List PChain) :
     parent validation accepts exactly the hierarchies the documentation allows and refuses the others with the class the
     documentation names (NoSuchAncestorException: a sequence chunk without a chromosome above it;
     NullSequenceException: a chunk level without sequence), never with an internal error.  FAILS on the grid points
-    `hierDeviation`: kinds 12, 18 (the chunk does not say where it sits on a parent: AttributeError, F-C19t), kinds
-    16, 19 (a valid chunk-on-chromosome hierarchy written with a sequence on the chromosome / with
-    `Parent(id, type, location)` is refused with MismatchedParentException, F-C19u), and the empty
-    AnnotationCollection on kinds 7-10, 17 (it never looks at its parent, F-C19w).  Proved for every other point. -/
+    `hierDeviation`: the empty AnnotationCollection on kinds 7-10, 12, 17, 18 (it never looks at its parent, F-C19w).
+    Kinds 12, 18 (the chunk does not say where it sits on a parent) were F-C19t for the located classes, repaired by
+    43c4851; on kinds 16, 19 a valid chunk-on-chromosome hierarchy written with a sequence on the chromosome / with
+    `Parent(id, type, location)` is refused with MismatchedParentException - a documented class, which the
+    specification lets pass (outside C19; DESIGN 11.5).  Proved for every other point. -/
 theorem parent_hierarchy_grid_partial (c : HCls) (k : Nat) (hk : k < nHierKinds) (hdev : hierDeviation c k = false) :
     hierPoint c k = true := by
   rw [hier_grid c k hk, hdev]; rfl
@@ -337,7 +338,7 @@ theorem parent_hierarchy_deviation_witness (c : HCls) (k : Nat) (hk : k < nHierK
     hierPoint c k = false := by
   rw [hier_grid c k hk, hdev]; rfl
 
-example : (12 : Nat) < nHierKinds ∧ hierDeviation .located 12 = true ∧ hierDeviation .emptyAnnot 7 = true := by decide
+example : (12 : Nat) < nHierKinds ∧ hierDeviation .emptyAnnot 12 = true ∧ hierDeviation .emptyAnnot 7 = true := by decide
 
 /-- T21 ANY hierarchy without a sequence chunk is taken as it is -/
 theorem hierarchy_without_chunk_accepted (chain : List HLevel) (h : hasAncestor .chunk chain = false) :
@@ -368,23 +369,32 @@ example : hasAncestor .chromosome [⟨.chunk, false, .none⟩, ⟨.chromosome, f
     [(⟨.chunk, false, .none⟩ : HLevel), ⟨.chromosome, false, .ptr false⟩].dropWhile (fun l => l.ty != .chunk) =
       [⟨.chunk, false, .none⟩, ⟨.chromosome, false, .ptr false⟩] := by decide
 
-/-- T24 ANY hierarchy: the parent validation ends in acceptance, in NoSuchAncestorException / NullSequenceException /
-    MismatchedParentException, or in the AttributeError of F-C19t -/
+/-- T24 ANY hierarchy: the parent validation ends in acceptance or in NoSuchAncestorException /
+    NullSequenceException / MismatchedParentException / ValidationException -/
 theorem parent_validation_outcomes (chain : List HLevel) :
     liftoverParents chain = .ok () ∨ liftoverParents chain = .error (.doc .NoSuchAncestor) ∨
     liftoverParents chain = .error (.doc .NullSequence) ∨ liftoverParents chain = .error (.doc .MismatchedParent) ∨
-    liftoverParents chain = .error (.internal "AttributeError") :=
+    liftoverParents chain = .error (.doc .Validation) :=
   liftover_outcomes chain
 
-/-- T24 (partial).  Full statement: `∀ chain cls, liftoverParents chain ≠ .error (.internal cls)`.  FAILS when the level
-    above the chunk carries no location (F-C19t).  Proved whenever that level records where the chunk sits. -/
-theorem parent_validation_never_internal_partial (chain : List HLevel) (c a : HLevel) (above : List HLevel)
-    (hd : chain.dropWhile (fun l => l.ty != .chunk) = c :: a :: above) (hl : a.loc ≠ .none) :
+/-- T24 ANY hierarchy: never an internal error (F-C19t - AttributeError when the level above the chunk carries no
+    location - is repaired by 43c4851; the partial form of this theorem needed that level to be located). -/
+theorem parent_validation_never_internal (chain : List HLevel) :
     ∀ cls, liftoverParents chain ≠ .error (.internal cls) :=
-  liftover_noInternal_of_located chain c a above hd hl
+  liftover_noInternal chain
 
-example : [(⟨.chunk, true, .none⟩ : HLevel), ⟨.chromosome, false, .ptr false⟩].dropWhile (fun l => l.ty != .chunk) =
-      ⟨.chunk, true, .none⟩ :: ⟨.chromosome, false, .ptr false⟩ :: [] ∧ HLoc.ptr false ≠ HLoc.none := by decide
+/-- T25 ANY hierarchy whose first chunk level (with its sequence, below a chromosome) does not record where it sits on
+    the level above is refused with ValidationException -/
+theorem unlocated_chunk_refused (chain : List HLevel) (c : HLevel) (above : List HLevel)
+    (hc : hasAncestor .chromosome chain = true)
+    (hd : chain.dropWhile (fun l => l.ty != .chunk) = c :: above) (hs : c.hasSeq = true)
+    (hl : ∀ a rest, above = a :: rest → a.loc = .none) :
+    liftoverParents chain = .error (.doc .Validation) :=
+  liftover_unlocated_refused chain c above hc hd hs hl
+
+example : hasAncestor .chromosome [⟨.chunk, true, .none⟩, ⟨.chromosome, false, .none⟩] = true ∧
+    [(⟨.chunk, true, .none⟩ : HLevel), ⟨.chromosome, false, .none⟩].dropWhile (fun l => l.ty != .chunk) =
+      [⟨.chunk, true, .none⟩, ⟨.chromosome, false, .none⟩] := by decide
 
 /-! ### never an internal error, for ALL arguments -/
 
